@@ -218,3 +218,218 @@ Proof.
     unfold g3 in H5. rewrite E1, E2 in H5.
     unfold blk_pays. fold lo. unfold pl2, pl1 in H5. rewrite <- !app_assoc in H5. cbn [app] in H5. exact H5.
 Qed.
+
+(** ---- a ByteData argument ---- *)
+Lemma simpleArg_byte_eq :
+  parseSimpleArg aml_pArgTypeByteData =
+  (mlet obj <~ newObj 0 ;;
+   mlet off <~ offsetM ;;
+   wrf obj (set_amlOffset off) ;;;
+   mlet tbl <~ curTable ;;
+   wrf obj (set_opcode aml_pOpBytePrefix) ;;;
+   mlet '(v, ok) <~ lex (parseNumConstant 1) ;;
+   wrf obj (set_value (Some (VNum v))) ;;;
+   mlet idx <~ tableIndex aml_pOpBytePrefix true ;;
+   wrf obj (set_infoIndex idx) ;;;
+   ret (Some obj, pres_of_bool ok)).
+Proof. reflexivity. Qed.
+
+Lemma parseArg_ByteData f inf cur : parseArg (S f) inf cur aml_pArgTypeByteData = parseSimpleArg aml_pArgTypeByteData.
+Proof. destruct inf as [[a b] c]. reflexivity. Qed.
+
+Definition byte_pay (s : pstate) (off v : N) : pay :=
+  mkPay aml_pOpBytePrefix 4 (p_handle s) name_zero off 0 (Some (VNum v)).
+
+Lemma simpleArg_byte v s g pl pre rest post (Q : option N * pres -> pstate -> Prop) :
+  Rep (p_tree s) g pl -> g_free g = [] -> N.of_nat (length pl) < InvalidIndex ->
+  at_token (p_r s) pre ([v] ++ rest) post -> v < 256 ->
+  (forall t', Rep t' (gnew g) (pl ++ [byte_pay s (lenN pre) v]) ->
+     Q (Some (N.of_nat (length pl)), ROk) (with_tree (with_r s (set_offset_raw (p_r s) (lenN pre + 1))) t')) ->
+  wp False (parseSimpleArg aml_pArgTypeByteData) s Q.
+Proof.
+  intros H Hfree Hroom Hat Hv K. rewrite simpleArg_byte_eq.
+  apply wp_bind. eapply (wp_newObj_rep False 0 0 s g pl); [exact H|exact Hfree|exact Hroom|discriminate| |reflexivity|].
+  { left. lia. }
+  intros t1 H1. unfold offsetM, rq. apply wp_bind, wp_get. scbn.
+  apply wp_bind. eapply (wp_wrf_rep False _ _ (ys_off (r_offset (p_r s)))); [exact H1|apply pget_app_last|discriminate|apply st_amlOffset|].
+  intros t2 H2. rewrite pupd_app_last in H2. unfold ys_off in H2; cbn [y_op y_info y_th y_name y_off y_pkgEnd y_val] in H2.
+  rewrite (at_off _ _ _ _ Hat) in H2.
+  unfold curTable. apply wp_bind, wp_get. scbn.
+  apply wp_bind. eapply (wp_wrf_rep False _ _ (ys_opcode aml_pOpBytePrefix)); [exact H2|apply pget_app_last|discriminate|apply st_opcode; discriminate|].
+  intros t3 H3. rewrite pupd_app_last in H3. unfold ys_opcode in H3; cbn [y_op y_info y_th y_name y_off y_pkgEnd y_val] in H3.
+  apply wp_bind. apply wp_lex.
+  exists v, true, (set_offset_raw (p_r s) (lenN pre + 1)). split.
+  { assert (E : [v] = Grammar.le_bytes 1 v).
+    { cbn [Grammar.le_bytes]. rewrite land_255. rewrite N.mod_small by exact Hv. reflexivity. }
+    apply (num_roundtrip 1 v (p_r s) pre (rest ++ post)); [lia|change (2 ^ (N.of_nat 1 * 8)) with 256; exact Hv|].
+    rewrite <- E. apply at_split. exact Hat. }
+  cbv beta iota.
+  apply wp_bind. eapply (wp_wrf_rep False _ _ (ys_val _)); [exact H3|apply pget_app_last|discriminate|apply st_value|].
+  intros t4 H4. rewrite pupd_app_last in H4. unfold ys_val in H4; cbn [y_op y_info y_th y_name y_off y_pkgEnd y_val] in H4.
+  apply wp_bind. eapply wp_tableIndex; [reflexivity|].
+  apply wp_bind. eapply (wp_wrf_rep False _ _ (ys_info _)); [exact H4|apply pget_app_last|discriminate|apply st_infoIndex|].
+  intros t5 H5. rewrite pupd_app_last in H5. unfold ys_info in H5; cbn [y_op y_info y_th y_name y_off y_pkgEnd y_val] in H5.
+  apply wp_ret. cbn [pres_of_bool]. apply K. exact H5.
+Qed.
+
+(** ---- the header of a Method: opcode, PkgLength, name path, flags byte, ScopeBlock ---- *)
+Definition g_meth (g : ghost) (sc : N) : ghost :=
+  let n := N.of_nat (length (g_kids g)) in
+  set_kids (gnew (set_kids (gnew (set_kids (gnew (g_head g sc)) n [n + 1])) n [n + 1; n + 2])) n [n + 1; n + 2; n + 3].
+
+Lemma len_g_meth g sc : length (g_kids (g_meth g sc)) = S (S (S (S (length (g_kids g))))).
+Proof. unfold g_meth. cbv zeta. rewrite len_set_kids, len_gnew, len_set_kids, len_gnew, len_set_kids, len_gnew, len_g_head. reflexivity. Qed.
+
+Lemma kids_g_meth g sc i : sc < N.of_nat (length (g_kids g)) ->
+  let n := N.of_nat (length (g_kids g)) in
+  kids (g_meth g sc) i = if i =? n then [n + 1; n + 2; n + 3] else if i =? sc then kids g sc ++ [n] else kids g i.
+Proof.
+  intros Hsc n. unfold g_meth. cbv zeta. fold n.
+  rewrite kids_set_kids by (rewrite len_gnew, len_set_kids, len_gnew, len_set_kids, len_gnew, len_g_head; lia).
+  destruct (N.eqb_spec i n) as [E|E]; [reflexivity|].
+  rewrite kids_gnew. rewrite kids_set_kids by (rewrite len_gnew, len_set_kids, len_gnew, len_g_head; lia).
+  apply N.eqb_neq in E. rewrite E. rewrite kids_gnew. rewrite kids_set_kids by (rewrite len_gnew, len_g_head; lia).
+  rewrite E. rewrite kids_gnew, kids_g_head by exact Hsc. reflexivity.
+Qed.
+
+Definition meth_pays (s : pstate) (off k fl : N) : list pay :=
+  [mkPay aml_pOpMethod 13 (p_handle s) name_zero off 0 None;
+   path_pay s (off + 1 + k) 4;
+   byte_pay s (off + 1 + k + 4) fl;
+   mkPay aml_pOpIntScopeBlock 113 (p_handle s) name_zero (off + 1 + k + 5) 0 None].
+
+Definition after_meth (s : pstate) (off' e : N) (t' : T) : pstate :=
+  with_tree
+    (with_scopeStack
+       (with_pkgEndStack (with_r s (set_pkgEnd_raw (set_offset_raw (p_r s) off') e)) (e :: p_pkgEndStack s))
+       (N.of_nat (length (t_pool (p_tree s))) + 3 :: p_scopeStack s))
+    t'.
+
+Lemma meth_facts : valid_opcode aml_pOpMethod /\ aml_pOpMethod <> aml_pOpNoop /\ aml_pOpMethod <> opFreed /\
+  is_prefix_op aml_pOpMethod = false /\ opcodeTableIndex aml_pOpMethod true = Some 13 /\
+  opInfo 13 = Some (aml_pOpMethod, 33, 17107215) /\ hasFlag 33 aml_pOpFlagDeferParsing = false.
+Proof.
+  repeat split; try discriminate; try reflexivity. exists 13. split; [reflexivity|discriminate].
+Qed.
+
+Lemma next_meth f s g pl pre k v seg fl rest post sc scs a :
+  Rep (p_tree s) g pl -> g_free g = [] -> N.of_nat (length pl) + 3 < InvalidIndex ->
+  at_token (p_r s) pre (enc_op aml_pOpMethod ++ enc_pkglen k v ++ seg_bytes seg ++ [fl] ++ rest) post ->
+  pkglen_admissible k v -> 5 + k <= v -> lenN pre + 1 + v <= r_len (p_r s) ->
+  lead_okb (seg_lead seg) = true -> fl < 256 ->
+  p_scopeStack s = sc :: scs -> pget pl sc = Some a -> y_op a <> opFreed -> p_allBlocks s = false ->
+  wp False (parseNextObject (S (S (S (S (S (S (S f)))))))) s (fun res s' => res = ROk /\ exists t',
+    s' = after_meth s (lenN pre + 1 + k + 5) (lenN pre + 1 + v) t' /\
+    Rep t' (g_meth g sc) (pl ++ meth_pays s (lenN pre) k fl)).
+Proof.
+  intros H Hfree Hroom Hat Hadm Hv4 Hend Hlead Hfl Est Hsc Hlsc Hab.
+  destruct meth_facts as (Hvalid & Hnoop & Hnf & Hnp & Hidx & Hinfo & Hdefer).
+  pose proof (rep_len_g _ _ _ H) as Hlg. pose proof (rep_len_pool _ _ _ H) as Hlp.
+  assert (Hsclt : sc < N.of_nat (length pl)) by (eapply pget_lt; eauto).
+  change (lenN (enc_op aml_pOpMethod)) with 1 in *.
+  eapply (next_head _ aml_pOpMethod 13 s g pl pre _ post sc scs a);
+    [exact H|exact Hfree|lia|exact Hat|exact Hvalid|exact Hnoop|exact Hnf|exact Hidx|exact Est|exact Hsc|exact Hlsc|].
+  intros t1 H1. change (lenN (enc_op aml_pOpMethod)) with 1.
+  set (a1 := mkPay aml_pOpMethod 13 (p_handle s) name_zero (lenN pre) 0 None) in *.
+  set (pl1 := pl ++ [a1]) in *.
+  assert (Hl1 : length pl1 = S (length pl)) by (unfold pl1; rewrite app_length; cbn [length]; lia).
+  assert (Hn : pget pl1 (N.of_nat (length pl)) = Some a1) by apply pget_app_last.
+  eapply (objargs_other _ _ a1 (aml_pOpMethod, 33, 17107215) _ _ pl1); [exact H1|exact Hn|exact Hnf|exact Hnp|exact Hinfo|].
+  (* argument 0: the PkgLength *)
+  rewrite parseArgs_S. change (argCount 17107215) with 4. cbv zeta. change (4 =? 0) with false. change (4 <=? 0) with false. cbv iota.
+  change (argType 17107215 0) with aml_pArgTypePkgLen.
+  pose proof (at_adv (p_r s) pre (enc_op aml_pOpMethod) _ post Hat) as Hat1. change (lenN (enc_op aml_pOpMethod)) with 1 in Hat1.
+  apply wp_bind.
+  eapply (arg_pkglen _ aml_pOpMethod 33 17107215 _ _ (pre ++ enc_op aml_pOpMethod) k v (seg_bytes seg ++ [fl] ++ rest) post); [exact Hat1|exact Hadm| |exact Hab|exact Hdefer|].
+  { rewrite lenN_app. change (lenN (enc_op aml_pOpMethod)) with 1. exact Hend. }
+  cbv beta iota. apply wp_bind. apply wp_ret. change (pres_eqb ROk ROk) with true. cbv iota. change (w8 (0 + 1)) with 1.
+  rewrite lenN_app. change (lenN (enc_op aml_pOpMethod)) with 1. set (e := lenN pre + 1 + v).
+  (* argument 1: the name *)
+  rewrite parseArgs_S. change (argCount 17107215) with 4. cbv zeta. change (4 =? 0) with false. change (4 <=? 1) with false. cbv iota.
+  change (argType 17107215 1) with aml_pArgTypeNameString. rewrite parseArg_NameString.
+  destruct (at_token_facts _ _ _ _ Hat) as (Ooff & Eend & Wb & Wc).
+  assert (Hlk : lenN (enc_pkglen k v) = k).
+  { destruct Hadm as [(-> & _)|[(-> & _)|[(-> & _)|(-> & _)]]]; reflexivity. }
+  pose proof (at_adv _ (pre ++ enc_op aml_pOpMethod) (enc_pkglen k v) (seg_bytes seg ++ [fl] ++ rest) post Hat1) as A.
+  rewrite Hlk, lenN_app in A. change (lenN (enc_op aml_pOpMethod)) with 1 in A.
+  set (pre2 := (pre ++ enc_op aml_pOpMethod) ++ enc_pkglen k v) in *.
+  assert (Hlpre2 : lenN pre2 = lenN pre + 1 + k).
+  { unfold pre2. rewrite !lenN_app, Hlk. change (lenN (enc_op aml_pOpMethod)) with 1. reflexivity. }
+  assert (Hat2 : at_token (set_pkgEnd_raw (set_offset_raw (p_r s) (lenN pre + 1 + k)) e) pre2 (enc_name (seg_name seg) ++ [fl]) (rest ++ post)).
+  { rewrite enc_seg_name. destruct A as [D O E W]. constructor.
+    - cbn [r_data set_pkgEnd_raw set_offset_raw] in D |- *. rewrite D, <- !app_assoc. reflexivity.
+    - exact O.
+    - cbn [r_pkgEnd set_pkgEnd_raw]. rewrite Hlpre2, lenN_app. change (lenN (seg_bytes seg)) with 4. change (lenN [fl]) with 1. unfold e. lia.
+    - destruct W as (W1 & W2 & W3 & W4). unfold reader_wf. cbn. repeat split; auto; unfold e; lia. }
+  apply wp_bind.
+  eapply (simpleArg_name (seg_name seg) _ _ pl1 _ [fl] (rest ++ post)); [exact H1|apply free_g_head|lia|exact Hat2|apply wf_seg_name; exact Hlead|rewrite slice_seg_name; lia|].
+  intros t2 H2. cbv beta iota.
+  rewrite ?slice_seg_name, ?enc_seg_name, ?Hlpre2 in H2. rewrite ?slice_seg_name, ?enc_seg_name, ?Hlpre2. change (lenN (seg_bytes seg)) with 4.
+  (* append the path to the Method object *)
+  assert (Hlg1 : length (g_kids (gnew (g_head g sc))) = S (S (length pl))) by (rewrite len_gnew, len_g_head; lia).
+  assert (Hkn : kids (g_head g sc) (N.of_nat (length pl)) = []).
+  { rewrite kids_g_head by lia. destruct (N.eqb_spec (N.of_nat (length pl)) sc); [lia|]. apply kids_oob. lia. }
+  apply wp_bind. eapply wp_append_rep; [exact H2| | | | |].
+  { split; [rewrite Hlg1; lia|cbn; tauto]. }
+  { split; [rewrite Hlg1; lia|cbn; tauto]. }
+  { replace (N.of_nat (length pl1)) with (N.of_nat (length (g_kids (g_head g sc)))) by (rewrite len_g_head; lia).
+    eapply groot_fresh. apply (rep_R _ _ _ H1). }
+  { intros Hd. apply desc_leaf in Hd; [lia|]. rewrite kids_gnew. apply kids_oob. rewrite len_g_head. lia. }
+  intros t3 H3. rewrite kids_gnew, Hkn in H3. cbn [app] in H3.
+  change (pres_eqb ROk ROk) with true. cbv iota. change (w8 (1 + 1)) with 2.
+  set (g3 := set_kids (gnew (g_head g sc)) (N.of_nat (length pl)) [N.of_nat (length pl1)]) in *.
+  set (pl2 := pl1 ++ [path_pay _ (lenN pre + 1 + k) 4]) in *.
+  assert (Hl2 : length pl2 = S (S (length pl))) by (unfold pl2; rewrite app_length; cbn [length]; lia).
+  assert (Hlg3 : length (g_kids g3) = S (S (length pl))) by (unfold g3; rewrite len_set_kids, Hlg1; reflexivity).
+  (* argument 2: the flags byte *)
+  rewrite parseArgs_S. change (argCount 17107215) with 4. cbv zeta. change (4 =? 0) with false. change (4 <=? 2) with false. cbv iota.
+  change (argType 17107215 2) with aml_pArgTypeByteData. rewrite parseArg_ByteData.
+  pose proof (at_adv _ pre2 (enc_name (seg_name seg)) ([fl]) (rest ++ post) Hat2) as A3.
+  rewrite enc_seg_name, Hlpre2 in A3. change (lenN (seg_bytes seg)) with 4 in A3.
+  apply wp_bind.
+  eapply (simpleArg_byte fl _ g3 pl2 (pre2 ++ seg_bytes seg) [] (rest ++ post)); [exact H3|reflexivity|lia| |exact Hfl|].
+  { rewrite app_nil_r. exact A3. }
+  intros t4 H4. cbv beta iota.
+  assert (Hlp3 : lenN (pre2 ++ seg_bytes seg) = lenN pre + 1 + k + 4) by (rewrite lenN_app, Hlpre2; reflexivity).
+  rewrite Hlp3 in H4 |- *.
+  set (pl3 := pl2 ++ [byte_pay _ (lenN pre + 1 + k + 4) fl]) in *.
+  assert (Hl3 : length pl3 = S (S (S (length pl)))) by (unfold pl3; rewrite app_length; cbn [length]; lia).
+  assert (Hkn3 : kids (gnew g3) (N.of_nat (length pl)) = [N.of_nat (length pl1)]).
+  { rewrite kids_gnew. unfold g3. rewrite kids_set_kids by (rewrite Hlg1; lia). rewrite N.eqb_refl. reflexivity. }
+  apply wp_bind. eapply wp_append_rep; [exact H4| | | | |].
+  { split; [rewrite len_gnew, Hlg3; lia|cbn; tauto]. }
+  { split; [rewrite len_gnew, Hlg3; lia|cbn; tauto]. }
+  { replace (N.of_nat (length pl2)) with (N.of_nat (length (g_kids g3))) by (rewrite Hlg3; lia).
+    eapply groot_fresh. apply (rep_R _ _ _ H3). }
+  { intros Hd. apply desc_leaf in Hd; [lia|]. rewrite kids_gnew. apply kids_oob. rewrite Hlg3. lia. }
+  intros t5 H5. rewrite Hkn3 in H5. cbn [app] in H5.
+  change (pres_eqb ROk ROk) with true. cbv iota. change (w8 (2 + 1)) with 3.
+  set (g5 := set_kids (gnew g3) (N.of_nat (length pl)) [N.of_nat (length pl1); N.of_nat (length pl2)]) in *.
+  assert (Hlg5 : length (g_kids g5) = S (S (S (length pl)))) by (unfold g5; rewrite len_set_kids, len_gnew, Hlg3; reflexivity).
+  (* argument 3: the ScopeBlock *)
+  rewrite parseArgs_S. change (argCount 17107215) with 4. cbv zeta. change (4 =? 0) with false. change (4 <=? 3) with false. cbv iota.
+  change (argType 17107215 3) with aml_pArgTypeTermList.
+  apply wp_bind.
+  eapply (arg_termlist _ _ _ _ g5 pl3); [exact H5|reflexivity|lia|exact Hab|].
+  intros t6 H6. cbv beta iota.
+  assert (Hkn5 : kids (gnew g5) (N.of_nat (length pl)) = [N.of_nat (length pl1); N.of_nat (length pl2)]).
+  { rewrite kids_gnew. unfold g5. rewrite kids_set_kids by (rewrite len_gnew, Hlg3; lia). rewrite N.eqb_refl. reflexivity. }
+  apply wp_bind. eapply wp_append_rep; [exact H6| | | | |].
+  { split; [rewrite len_gnew, Hlg5; lia|cbn; tauto]. }
+  { split; [rewrite len_gnew, Hlg5; lia|cbn; tauto]. }
+  { replace (N.of_nat (length pl3)) with (N.of_nat (length (g_kids g5))) by (rewrite Hlg5; lia).
+    eapply groot_fresh. apply (rep_R _ _ _ H5). }
+  { intros Hd. apply desc_leaf in Hd; [lia|]. rewrite kids_gnew. apply kids_oob. rewrite Hlg5. lia. }
+  intros t7 H7. rewrite Hkn5 in H7. cbn [app] in H7.
+  change (pres_eqb RShort ROk) with false. cbv iota. apply wp_ret.
+  split; [reflexivity|]. exists t7. split.
+  - unfold after_meth. rewrite <- Hlp. replace (N.of_nat (length pl) + 3) with (N.of_nat (length pl3)) by lia.
+    replace (lenN pre + 1 + k + 5) with (lenN pre + 1 + k + 4 + 1) by lia. reflexivity.
+  - unfold g_meth. cbv zeta. rewrite Hlg.
+    assert (E1 : N.of_nat (length pl1) = N.of_nat (length pl) + 1) by lia.
+    assert (E2 : N.of_nat (length pl2) = N.of_nat (length pl) + 2) by lia.
+    assert (E3 : N.of_nat (length pl3) = N.of_nat (length pl) + 3) by lia.
+    unfold g5, g3 in H7. rewrite E1, E2, E3 in H7.
+    unfold meth_pays. unfold pl3, pl2, pl1 in H7. rewrite <- !app_assoc in H7. cbn [app] in H7.
+    replace (lenN pre + 1 + k + 4 + 1) with (lenN pre + 1 + k + 5) in H7 by lia. exact H7.
+Qed.
